@@ -91,9 +91,33 @@ func c05Allow(c c05Case) func(string) bool {
 
 // c05Build returns the stack under test for the case.
 // c05Mem builds a real ocimem holding the items as repositories or as tags of repository r.
+// c05RefManifest is the referrer manifest standing for item it: an image manifest whose subject is the
+// (opaque) manifest "hello" that the Referrers queries of this check name.
+func c05RefManifest(it string) []byte {
+	return []byte(fmt.Sprintf(`{"schemaVersion":2,"mediaType":%q,"config":{"mediaType":%q,"digest":%q,"size":5},"layers":[],"subject":{"mediaType":%q,"digest":%q,"size":5},"annotations":{"item":%q}}`,
+		mtImage, mtOctet, c12Dig, mtOpaque, c12Dig, it))
+}
+
 func c05Mem(c c05Case) ociregistry.Interface {
 	m := ocimem.New()
 	ctx := context.Background()
+	if c.Kind == "referrers" {
+		// subject, config blob, and every referrer pushed more than once (untagged, tagged, untagged
+		// again): a manifest is stored once however often it is pushed
+		must := func(_ ociregistry.Descriptor, err error) {
+			if err != nil {
+				panic(err)
+			}
+		}
+		must(m.PushBlob(ctx, "r", descOf(mtOctet, []byte("hello")), strings.NewReader("hello")))
+		must(m.PushManifest(ctx, "r", "", []byte("hello"), mtOpaque))
+		for i, it := range c.Items {
+			must(m.PushManifest(ctx, "r", "", c05RefManifest(it), mtImage))
+			must(m.PushManifest(ctx, "r", fmt.Sprintf("tag%d", i), c05RefManifest(it), mtImage))
+			must(m.PushManifest(ctx, "r", "", c05RefManifest(it), mtImage))
+		}
+		return m
+	}
 	for _, it := range c.Items {
 		var err error
 		if c.Kind == "repos" {
@@ -182,6 +206,9 @@ func c05Want(c c05Case) []string {
 		}
 		if c.Kind == "referrers" {
 			name = descText(ociregistry.Descriptor{MediaType: mtOpaque, Digest: sha256Digest([]byte(it)), Size: int64(len(it))})
+			if strings.Contains(c.Stack, "mem") {
+				name = descText(descOf(mtImage, c05RefManifest(it)))
+			}
 		}
 		all = append(all, name)
 	}
@@ -256,12 +283,65 @@ func c05Rerun(r *vcore.Run, c c05Case) {
 	})
 }
 
+// c05CancelMidway: the consumer cancels its context after the k-th item and keeps accepting. What it
+// is given from then on is the rest of the listing or an error - never a clean end part-way.
+func c05CancelMidway(r *vcore.Run, c c05Case) {
+	want := c05Want(c)
+	repo := "r"
+	if strings.Contains(c.Stack, "sel") {
+		repo = "a"
+	}
+	for k := 1; k <= len(want) && k <= 3; k++ {
+		fp := fmt.Sprintf("C05/%s/%s/context-cancelled-midway", c.Kind, c.Stack)
+		reg := c05Build(c)
+		ctx, cancel := context.WithCancel(context.Background())
+		r.Guard("list", fp, c, func() {
+			var got []string
+			var gotErr error
+			n := 0
+			each := func(item string, err error) bool {
+				if err != nil {
+					gotErr = err
+					return false
+				}
+				got = append(got, item)
+				n++
+				if n == k {
+					cancel()
+				}
+				return true
+			}
+			switch c.Kind {
+			case "repos":
+				reg.Repositories(ctx, c.After)(each)
+			case "tags":
+				reg.Tags(ctx, repo, c.After)(each)
+			case "referrers":
+				reg.Referrers(ctx, repo, c12Dig, "")(func(d ociregistry.Descriptor, err error) bool { return each(descText(d), err) })
+			}
+			for i := range got {
+				if i >= len(want) || got[i] != want[i] {
+					r.Violate("list", fp+"/wrong-item", c, strings.Join(want, ","), strings.Join(got, ","))
+					return
+				}
+			}
+			if gotErr == nil && len(got) != len(want) {
+				r.Violate("list", fp+"/silently-short", c, fmt.Sprintf("all %d items or an error (context cancelled after item %d)", len(want), k), fmt.Sprintf("%d items, no error", len(got)))
+			}
+		})
+		cancel()
+	}
+}
+
 func c05Run(r *vcore.Run, c c05Case) {
 	art := c // the artefact keeps the generator, not 10 000 names
 	c = c.expand()
 	fp := fmt.Sprintf("C05/%s/%s", c.Kind, c.Stack)
 	if c.StopAfter == 0 && c.ErrAfter < 0 && !(c.ServerMax > 0 && c.ClientN > c.ServerMax) {
 		c05Rerun(r, c)
+		if art.Gen == 0 {
+			c05CancelMidway(r, c)
+		}
 	}
 	if art.Gen > 0 {
 		c05RunBig(r, art, c)
@@ -562,7 +642,7 @@ func c05Cases(thorough bool) []c05Case {
 		}
 		if kind == "referrers" {
 			for n := 0; n <= 4; n++ {
-				for _, stack := range []string{"rec", "http1", "http2", "dbg-http1-dbg"} {
+				for _, stack := range []string{"rec", "http1", "http2", "dbg-http1-dbg", "mem", "http1-mem"} {
 					add(c05Case{Kind: kind, Stack: stack, Items: plain[:n], ClientN: 2})
 				}
 			}
